@@ -48,12 +48,12 @@ Definition inget (p : pc) : Z :=
   | _ => 0
   end.
 
-Lemma hp_nonneg p : 0 <= hp p. Proof. destruct p as [| | |? []| | | | | | | | | | | | | | | | | | | | | | | | | ]; cbn; lia. Qed.
+Lemma hp_nonneg p : 0 <= hp p. Proof. destruct p as [| | |? []| | | | | | | | | | | | | | | | | | | | | | | | | | | | | | ]; cbn; lia. Qed.
 Lemma cs_nonneg p : 0 <= cs p. Proof. destruct p; cbn; lia. Qed.
 Lemma ell_nonneg p : 0 <= ell p. Proof. destruct p; cbn; lia. Qed.
 Lemma up_nonneg p : 0 <= up p. Proof. destruct p; cbn; lia. Qed.
 Lemma ell_le_hp p : ell p <= hp p.
-Proof. destruct p as [| | |? []| | | | | | | | | | | | | | | | | | | | | | | | | ]; cbn; lia. Qed.
+Proof. destruct p as [| | |? []| | | | | | | | | | | | | | | | | | | | | | | | | | | | | | ]; cbn; lia. Qed.
 Lemma cs_le_ell p : cs p <= ell p. Proof. destruct p; cbn; lia. Qed.
 
 Definition zlen {A} (l : list A) : Z := Z.of_nat (length l).
